@@ -175,3 +175,13 @@ CLAIMS["C10"] = (
     "float32 containers are fitted at tol=1e-5 (a tolerance below single precision is unattainable and lets rounding drift accumulate). "
     "Known finding: GroupLasso / MultiTaskLasso on float32 data.",
     "DESIGN.md §4 C10")
+CLAIMS["C16"] = (
+    "exploration",
+    "bounded exhaustive enumeration of (solver, datafit, penalty variant, design, target, intercept, storage) with the critical strength bracketed on both sides against a reference null model",
+    "20 solver/datafit/penalty cases (every penalty with alpha_max, the group-lasso helper, the row penalty, SqrtLasso's automatic "
+    "path) x 4 designs x targets incl. a non-centred one x intercept on/off x positive / l1_ratio / weights (zeros incl.) / gamma "
+    "variants x dense/CSC: the library's alpha_max evaluated at the reference null model must be critical - at alpha_max(1+1e-8) the "
+    "penalised coefficients are exactly 0 and intercept / unpenalised features equal the reference null model, at "
+    "alpha_max(1-1e-3) some penalised coefficient is non-zero.",
+    "Reference null model: closed-form least squares / Newton. Clauses apply when the solver reports stop_crit <= 1e-10.",
+    "DESIGN.md §4 C16")
